@@ -140,6 +140,7 @@ class Extractor:
         self.used_contracts = set()
         self.used_loops = set()
         self.used_hints = set()
+        self.vacuity_probes = []
 
     # -- source access
     def load(self, rel):
@@ -252,6 +253,10 @@ class Extractor:
             edits.append((it.body_open, it.body_open, "\n" + ctext.rstrip() + "\n"))
         if rebinding:
             edits.append((it.body_open + 1, it.body_open + 1, rebinding))
+        if self.unit.get("_vacuity"):
+            # vacuity probe: must FAIL in every function, otherwise its precondition is unsatisfiable
+            self.vacuity_probes.append(qual)
+            edits.append((it.body_open + 1, it.body_open + 1, ' proof { assert(vf_vacuity_probe("%s")); }' % qual))
         # loops
         loops = rs.find_loops(masked, it.body_open, it.body_close)
         for (q, n), ltext in self.sidecar.loops.items():
@@ -324,7 +329,7 @@ class Extractor:
                         raise Undecided("lost anchor: fn %s in `%s` of %s: %d matches" % (fname, sel, rel, len(cands)))
                     f = cands[0][1]
                     qual = "%s::%s" % (qual_t, ent.get("rename", {}).get(fname, fname))
-                    out = out + self._emit_fn(txt, fi, rel, f, qual, strip_async, ent_rewrites, ent)
+                    out = out + self._emit_fn(txt, fi, rel, f, qual, strip_async, ent_rewrites, ent, indent="    ")
                 out = out + OText.synthetic("}\n")
             else:
                 if len(found) != 1:
@@ -350,7 +355,7 @@ class Extractor:
             off += len(ln) + 1
         return ot.apply(edits) if edits else ot
 
-    def _emit_fn(self, txt, fi, rel, f, qual, strip_async, rewrites, ent):
+    def _emit_fn(self, txt, fi, rel, f, qual, strip_async, rewrites, ent, indent=""):
         body = txt[f.start:f.end]
         self.functions.append(dict(
             name=qual, file=rel,
@@ -360,7 +365,7 @@ class Extractor:
         ot = self.phase1(ot, strip_async, rewrites)
         ot = self._drop_inner_attrs(ot)
         ot = self.phase2_fn(ot, qual)
-        return OText.synthetic("\n") + ot + OText.synthetic("\n")
+        return OText.synthetic("\n" + indent) + ot + OText.synthetic("\n")
 
     def generate(self):
         """returns (text, linemap) where linemap[i] = (relpath, line) or None for generated line i+1"""
@@ -384,7 +389,10 @@ class Extractor:
         parts.append(OText.synthetic("// ---- sidecar prelude %s\n%s\n// ---- extracted items\n" % (self.unit.get("spec"), self.sidecar.prelude)))
         items = self.build_items()
         parts.append(items)
-        parts.append(OText.synthetic("\n// ---- sidecar postlude\n" + self.sidecar.postlude + "\n} // verus!\nfn main() {}\n"))
+        tail = ""
+        if self.unit.get("_vacuity"):
+            tail = "\nspec fn vf_vacuity_probe(s: &str) -> bool { false }\nproof fn vf_canary() ensures false { }\n"
+        parts.append(OText.synthetic("\n// ---- sidecar postlude\n" + self.sidecar.postlude + tail + "\n} // verus!\nfn main() {}\n"))
         # all sidecar directives must have been used
         for q in self.sidecar.contracts:
             if q not in self.used_contracts:
